@@ -193,9 +193,17 @@ func TestChainTransparency(t *testing.T) {
 		rtcpR := chain.BindRTCPReader(rtcpSrc)
 		var locals []*localStream
 		var remotes []*remoteStream
+		var shadows []*kit.RTPSink
 		for i, n := 0, rapid.IntRange(1, 2).Draw(t, "locals"); i < n; i++ {
 			l := &localStream{info: kit.LocalInfo(uint32(0x100+i), twccID, rapid.Bool().Draw(t, "rtx"), rapid.Bool().Draw(t, "fec")), sink: &kit.RTPSink{FailAt: map[int]error{}}, //nolint:gosec
 				seq: kit.U16Boundary().Draw(t, "lseq"), twcc: rapid.Uint16().Draw(t, "ltw")}
+			if rapid.IntRange(0, 5).Draw(t, "boundBefore") == 0 {
+				// the stream had been bound before with another next writer (a renegotiation without Unbind): what the application writes
+				// through the writer of the second Bind goes to the second Bind's next writer only
+				shadow := &kit.RTPSink{}
+				_ = chain.BindLocalStream(l.info, shadow)
+				shadows = append(shadows, shadow)
+			}
 			l.w = chain.BindLocalStream(l.info, l.sink)
 			locals = append(locals, l)
 		}
@@ -458,6 +466,12 @@ func TestChainTransparency(t *testing.T) {
 						}
 					}
 				}
+			}
+		}
+		for _, sh := range shadows {
+			if n := sh.Len(); n > 0 {
+				c := sh.Calls()[0]
+				t.Fatalf("%s: %d packets (first: ssrc %#x seq %d) were written to the next writer of an earlier Bind of the stream, which the application no longer uses", where, n, c.Header.SSRC, c.Header.SequenceNumber)
 			}
 		}
 		// (6) Unbind and Close reach every member exactly once, all Close errors are preserved
